@@ -119,6 +119,39 @@ def gen_program(rng, idx):
         actions += [lambda r, sm=sm: [('print', call(sm, I(r.randint(0, 3))))],
                     lambda r, bump=bump, off=off: [('print', call(bump)), ('print', V(off))],
                     lambda r, off=off: [('asg', off, None, ('bin', '+', V(off), I(5)))]]
+    # closures created INSIDE a block (if body, from / while iteration) over a variable declared in that block: the
+    # variable outlives the block for as long as the closure does
+    if rng.random() < 0.5:
+        mkb = 'mkb%d' % idx
+        a, b = rng.randint(2, 9), rng.randint(2, 9)
+        prog.append(('asg', mkb, None, fn([('n', 'int')], ('fn', (), 'int'), [
+            ('if', ('bin', '>', V('n'), I(0)), [
+                ('asg', 'v', None, ('bin', '*', V('n'), I(a))),
+                ('asg', 'g', None, fn([], 'int', [('ret', V('v'))])),
+                ('ret', V('g'))]),
+            ('asg', 'w', None, I(b)),
+            ('asg', 'h', None, fn([], 'int', [('ret', V('w'))])),
+            ('ret', V('h'))])))
+        keep = 'keep%d' % idx
+        prog.append(('asg', 'cb1_%d' % idx, None, call(mkb, I(rng.randint(1, 4)))))
+        prog.append(('asg', 'cb0_%d' % idx, None, call(mkb, I(0))))
+        prog.append(('asg', keep, None, fn([], 'int', [('ret', I(-1))])))
+        pick = rng.randint(0, 2)
+        prog.append(('from', I(0), I(3), False, None, 'bi%d' % idx, False, [
+            ('asg', 'bk', None, ('bin', '*', V('bi%d' % idx), I(a))),
+            ('asg', 'bg', None, fn([], 'int', [('ret', ('bin', '+', V('bk'), I(1)))])),
+            ('if', ('bin', '==', V('bi%d' % idx), I(pick)), [('asg', keep, None, V('bg'))])]))
+        actions += [lambda r, idx=idx: [('print', call('cb1_%d' % idx))],
+                    lambda r, idx=idx: [('print', call('cb0_%d' % idx))],
+                    lambda r, keep=keep: [('print', call(keep))]]
+        if rng.random() < 0.5:
+            zz = 'bz%d' % idx
+            prog.append(('asg', zz, None, I(0)))
+            prog.append(('while', ('bin', '<', V(zz), I(2)), [
+                ('asg', zz, None, ('bin', '+', V(zz), I(1))),
+                ('asg', 'wk', None, ('bin', '*', V(zz), I(100))),
+                ('asg', 'wg', None, fn([], 'int', [('ret', ('bin', '+', V('wk'), V(zz)))])),
+                ('if', ('bin', '==', V(zz), I(1)), [('asg', keep, None, V('wg'))])]))
     for _ in range(rng.randint(4, 12)):
         prog += rng.choice(actions)(rng)
     # passing a closure as an argument
@@ -128,6 +161,35 @@ def gen_program(rng, idx):
             if any(s[0] == 'asg' and s[1] == 'a%d' % o for s in prog):
                 prog.append(('print', call('apply2', V('a%d' % o))))
     return [coregen.Gen.norm_s(s) for s in prog]
+
+
+def view_cases(rng, n):
+    """(outside the Coq AST: lists and objects) `modify x = <element or field>` stores the VALUE read at that moment: a later
+    write to the element / field must not show through x, for the owner or for any other closure (Python oracle)"""
+    out = []
+    for _ in range(n):
+        vals = [rng.randint(1, 9) for _ in range(3)]
+        i = rng.randint(0, 2)
+        new = rng.randint(50, 99)
+        fv = rng.randint(10, 40)
+        form = rng.choice(["elem", "field", "elem-in-fn", "plain-assign"])
+        pre = ("xs: [int...] = [%d, %d, %d]\nclass Box {\n  v: int\n  constructor(self, v: int) {\n    self.v = v\n  }\n}\nb = Box(%d)\nx = 0\n"
+               "getx = fn() -> int {\n  return x\n}\n" % (vals[0], vals[1], vals[2], fv))
+        if form == "elem":
+            src = pre + "setx = fn(i: int) {\n  modify x = xs[i]\n}\nsetx(%d)\nprint x\nxs[%d] = %d\nprint x\nprint getx()\nprint xs[%d]\n" % (i, i, new, i)
+            exp = [vals[i], vals[i], vals[i], new]
+        elif form == "field":
+            src = pre + "setx = fn() {\n  modify x = b.v\n}\nsetx()\nprint x\nb.v = %d\nprint x\nprint getx()\nprint b.v\n" % new
+            exp = [fv, fv, fv, new]
+        elif form == "elem-in-fn":
+            src = pre + ("mk = fn() -> fn() -> int {\n  c = 0\n  take = fn(i: int) {\n    modify c = xs[i]\n  }\n  take(%d)\n  rd = fn() -> int {\n    return c\n  }\n  return rd\n}\n"
+                         "r = mk()\nprint r()\nxs[%d] = %d\nprint r()\nxs.reverse()\nprint r()\n" % (i, i, new))
+            exp = [vals[i], vals[i], vals[i]]
+        else:
+            src = pre + "x = xs[%d]\ny = b.v\nxs[%d] = %d\nb.v = %d\nprint x\nprint y\nprint getx()\n" % (i, i, new, new)
+            exp = [vals[i], fv, vals[i]]
+        out.append((src, [str(e) for e in exp]))
+    return out
 
 
 def run(ctx):
@@ -143,7 +205,20 @@ def run(ctx):
     if len(rej) > len(results) // 4:
         ctx.report("generator-degraded", "%d of %d closure programs are rejected by the compiler: %s" % (len(rej), len(results), rej[0].get("stderr", "")[-300:]),
                    {"project": coretie.slim(rej[0]["proj"])}, found_input=False)
-    ctx.cov["evaluations"] = st["programs"]
+    from . import programs
+    base = ctx.mktemp()
+    vcs = view_cases(ctx.rng, 40 if ctx.quick() else 400)
+
+    def one_view(c):
+        d = programs.materialize({"files": {"main.ms": c[0]}}, base)
+        return programs.run_bin(binary, ["run", "main.ms", "-q"], d)
+    for (src, exp), (rc, out, err) in zip(vcs, programs.pmap(one_view, vcs)):
+        got = out.split("\n")[:-1]
+        if rc != 0 or got != exp:
+            ctx.report("semantics:captured-value-is-a-view", "a captured / assigned variable must hold the value read, not a view of the element or field: printed %r (exit %d), expected %r" % (got, rc, exp),
+                       {"program": src, "expected": exp, "observed": got, "rc": rc, "stderr": err[-300:], "how": "mscript run main.ms -q"})
+    ctx.cov["view_cases"] = len(vcs)
+    ctx.cov["evaluations"] = st["programs"] + len(vcs)
     ctx.cov["distinct_nontrivial"] = len(set(r["proj"]["files"]["main.ms"] for r in results if r["status"] == "ran" and "modify" in r["proj"]["files"]["main.ms"]))
     ctx.cov["rule"] = ("closure programs: 1-3 owners (module-level variable with reader/writer/shadowing closures; factory returning a stepping closure that "
                        "shares a cell with a second closure, instantiated twice; depth-3 nesting with a modify from the innermost function), random histories of "
